@@ -272,7 +272,10 @@ def run_interleave(case, viol, obs):
     pending = {"A": None, "B": None}
     rew = {X: C.open_rewards(c["reward"]["family"], c["reward"]["seed"], max(c["T"], 1)) for X, c in cases.items()}
 
+    budget = C.StepBudget(5 * 10 ** 6)  # logical steps per API call: a hang ends the run, whatever the machine load
+
     def call(X, f):
+        budget.reset()
         if raw:
             return f()
         np.random.set_state(states[X])
@@ -289,6 +292,7 @@ def run_interleave(case, viol, obs):
         algo[X] = call(X, lambda: C.build(cases[X], P))
     nsw = 0
     last = None
+    budget.on()
     try:
         while pos["A"] < A["T"] or pos["B"] < B["T"]:
             live = [X for X in "AB" if pos[X] < cases[X]["T"]]
@@ -310,10 +314,15 @@ def run_interleave(case, viol, obs):
             if last is not None and last != X:
                 nsw += 1
             last = X
+    except C.StepBudgetExceeded:
+        V(viol, "C14:interleaved_instance_hangs_where_its_solo_run_does_not", raw=raw)
+        return None
     except Exception as e:
         V(viol, "C14:interleaved_instance_raises_where_its_solo_run_does_not", error="%s: %s" % (type(e).__name__, e),
           raw=raw)
         return None
+    finally:
+        budget.off()
     obs["interleaved_schedules"] += 1
     obs["instance_switches"] += nsw
     obs["interleavings_%s" % ("raw" if raw else "rng_state_swapped")] += 1
